@@ -1399,7 +1399,19 @@ impl<'l> CelCompiler<'l> {
                             let mut tok = StringTokenizer::with_input(&e);
                             let mut comp = CelCompiler::with_tokenizer(&mut tok);
 
-                            let (e, _) = comp.parse_expression()?;
+                            // the segment has its own tokenizer, whose positions
+                            // are relative to the segment text: a syntax error in
+                            // it is reported where the literal starts
+                            let (e, _) = comp.parse_expression().map_err(|err| match err {
+                                CelError::Syntax(inner) => {
+                                    let at = SyntaxError::from_location(loc.start());
+                                    CelError::Syntax(match inner.message() {
+                                        Some(msg) => at.with_message(msg.to_owned()),
+                                        None => at,
+                                    })
+                                }
+                                other => other,
+                            })?;
                             details.union_from(e.details().clone());
 
                             bytecode.push(
